@@ -364,8 +364,9 @@ EXTRA = {
 EXTRA6 = {
     'C01': 'inner() re-orders axes_a by argsort(axes_b) when it normalises axes_b to range(rank) (AXES-parallel-sort).',
     'C05': 'Eigenvalues and eigenvector blocks of eig/eigh/eigvals are stored at the ROW sector of the diagonal block, sliced on a.legs[0] (FACT-eig-slot).',
-    'C09': 'Parallel per-site containers (tensors, singular values, sites, forms) are re-ordered with index arrays that agree modulo L (REINDEX-congruent).',
-    'C10': 'The merge key of MultiCouplingTerms._insert_connection equals the set of fields taken over from the new connection (decided on field sets, for slice and tuple forms); every contribution to H_bond precedes the Hermitian conjugation under explicit_plus_hc.',
+    'C11': 'Loops over grouped sites advance by the size of the group, never by the nominal n (GROUP-stride, sibling agreement of MPS / MPO / NearestNeighborModel.group_sites).',
+    'C09': 'Loops over grouped sites advance by the size of the group (GROUP-stride). Parallel per-site containers (tensors, singular values, sites, forms) are re-ordered with index arrays that agree modulo L (REINDEX-congruent).',
+    'C10': 'The merge key of MultiCouplingTerms._insert_connection equals the set of fields taken over from the new connection (decided on field sets, for slice and tuple forms); every contribution to H_bond precedes the Hermitian conjugation under explicit_plus_hc; loops over grouped sites advance by the size of the group (GROUP-stride).',
     'C14': 'A factor norm(S) moved into psi.norm is divided out of S before any further use of S in the same update (NORM-renorm-use).',
     'C15': 'A relative truncation error is normalised by the norm of the tensor it approximates (TRUNC-eps-reference).',
     'C16': 'Arithmetic with self.E_shift occurs only in run(), on the returned local: the shift is removed exactly once.',
